@@ -181,6 +181,10 @@ def run_inner(args):
                 cur += 1
                 continue
             psi.apply_gate_(gate)
+            if max(max(psi[s].get_shape()[:4]) for s in g.sites()) > 32:
+                # exact splits multiply the bond dimension by the operator-space dimension at every gate: to_tensor() of such a state needs gigabytes
+                psi = before
+                continue
             ent, integral = pepsx.state_entries(fam, psi, order)
         except YastnError as ex:
             ev.append({'op': 'verdict', 'what': what + ' raised YastnError: ' + str(ex)[:80], 'verdicts': {'gate_applied': False}})
